@@ -48,6 +48,9 @@ def main():
             pass
     except Exception:
         pass
+    # the per-case watchdog counts CPU time of this process (ITIMER_PROF), not wall-clock time: a case that loops burns CPU and is stopped,
+    # a case that merely waits for a core on a loaded machine is not
+    signal.signal(signal.SIGPROF, _alarm)
     signal.signal(signal.SIGALRM, _alarm)
     case_timeout = float(shard.get("case_timeout", 120.0))
     out = open(out_path, "a", buffering=1)
@@ -64,7 +67,8 @@ def main():
         t0 = time.time()
         status = "ok"
         err = None
-        signal.setitimer(signal.ITIMER_REAL, case_timeout)
+        signal.setitimer(signal.ITIMER_PROF, case_timeout)
+        signal.setitimer(signal.ITIMER_REAL, case_timeout * 20 + 600)  # generous wall-clock backstop
         try:
             with warnings.catch_warnings():
                 warnings.simplefilter("ignore")
@@ -90,6 +94,7 @@ def main():
                 status = "harness_error"
                 err = tb[-2500:]
         finally:
+            signal.setitimer(signal.ITIMER_PROF, 0)
             signal.setitimer(signal.ITIMER_REAL, 0)
         rec = {"t": "end", "i": idx, "status": status, "err": err, "dt": round(time.time() - t0, 4),
                "counters": ctx.counters, "classes": ctx.classes, "notes": ctx.notes,
